@@ -223,6 +223,16 @@ def run(repo, rep, tier):
         f = repo.func(*fq)
         rets = [r for r in walk_no_nested(f) if isinstance(r, ast.Return) and r.value is not None and not (isinstance(r.value, ast.Constant) and r.value.value is None)]
         rep.check('probe-isolation', '%s returns nothing' % fq[1], not rets, rets[0] if rets else f, '%s returns a value' % fq[1])
+    # nothing -- not even SystemExit -- may leave a probe: "misbehaviour confined to the later probes still leaves a complete algorithm report"
+    for fq in (('hostkeytest', 'HostKeyTest.run'), ('gextest', 'GEXTest.run'), ('dheat', 'DHEat.dh_rate_test')):
+        pf = repo.func(*fq)
+        rep.saw(pf)
+        for s_, chain in sorted(ea.of(pf), key=lambda x: (func_id(x[0].func), x[0].node.lineno)):
+            if s_.exc == 'KeyboardInterrupt':
+                continue
+            rep.check('probe-isolation', 'no %s leaves the probe %s' % (s_.exc, fq[1]), False, s_.node,
+                      '%s (%s) raised in %s can leave the probe %s: the initial handshake was fine, but the audit ends here without the algorithm report' % (s_.exc, s_.desc, func_id(s_.func), fq[1]),
+                      witness=list(chain), stmt='%s leaving %s @ %s' % (s_.exc, fq[1], stmt_text(enclosing(s_.node))))
     rt = [n for n in walk_no_nested(au) if isinstance(n, ast.Assign) and isinstance(n.value, ast.Call) and call_name(n.value) == 'DHEat.dh_rate_test']
     for n in rt:
         rep.check('probe-isolation', 'the rate test only yields notes', unparse(n.targets[0]) == 'dh_rate_test_notes', n, 'rate test result assigned to %s' % unparse(n.targets[0]))
